@@ -427,7 +427,7 @@ def run(tier="quick"):
                                         "%s\n[%d pre-state x parameter combinations executed]\n%s" % (text, ran, INV_TEXT)))
 
             for op in ['start_mark_phase', 'process_gray', 'sweep', 'maybe_gc']:
-                mk("C06.gc.%s.preserves_inv" % op, ["C06"], "VmGreenThread::" + op, [op], ['inv', 'panic', 'post'],
+                mk("C06.gc.%s.preserves_inv" % op, ["C06", "C07"], "VmGreenThread::" + op, [op], ['inv', 'panic', 'post'],
                    "assume inv(t) [%s]; t.%s(..); assert inv(t) and no panic" % (
                        {'start_mark_phase': 'Idle', 'process_gray': 'Marking, any budget', 'sweep': 'Sweeping, any budget',
                         'maybe_gc': 'any state, any gc_debt / last_gc_heap_size threshold case'}[op], op), op)
@@ -448,7 +448,7 @@ def run(tier="quick"):
                "(the program behaves as with collection disabled)", 'maybe_gc')
             for a in NATIVE_ARMS:
                 fn = "VmGreenThread::push_str" if a == 'push_str' else "VmGreenThread::step arm Instr::" + a
-                mk("C06.gc.%s.preserves_inv" % a, ["C06"], fn, [a], ['inv', 'panic', 'post'],
+                mk("C06.gc.%s.preserves_inv" % a, ["C06", "C07"], fn, [a], ['inv', 'panic', 'post'],
                    "assume inv(t) in ANY collector state and the typing precondition of the instruction; run the lifted arm once; "
                    "assert inv(t), no panic, nothing removed from heap_list", a)
         info_out = dict(
